@@ -154,6 +154,8 @@ def frames_literal(case, obs):
 
 # ----------------------------------------------------------------------------- live programs
 LIVE_TEMPLATE = '''
+a = "module-level a"
+extra = "module-level extra"
 class Box:
     def __init__(self, v):
         self.v = v
@@ -209,7 +211,9 @@ def live_cases(ctx, n):
         push = e1.FakePush()
         handler = TriggerHandler(cfg, push)
         args = {"frame_type": ft, "fire_count": "-1", "fire_period": "0"}
-        conf = dict(args, watches=[], stack_type="stack", log_msg=None)
+        # watches naming a local that SHADOWS a module global, a pure global, and an expression over both
+        watch_exprs = ["a", "extra", "(a, extra)"]
+        conf = dict(args, watches=watch_exprs, stack_type="stack", log_msg=None)
         handler.new_config([Trigger(LineLocation(os.path.basename(path), line, Location.Position.START),
                                     [LocationAction("live-%d" % k, None, conf, LocationAction.ActionType.Snapshot)])])
         recorded = []
@@ -285,6 +289,21 @@ def live_cases(ctx, n):
                     elif ent["ty"] != type(o).__name__ or str(ent["hash"]) != str(id(o)):
                         ctx.fail("live: variable %r recorded as %s, the local is a %s" % (v["name"], ent["ty"], type(o).__name__), j,
                                  tag="type")
+            # watches are evaluated against that same frame: its locals first, then its module's globals
+            for w in snap.watches:
+                try:
+                    want = eval(w.expression, dict(glb), dict(chain[0]["locals"]))
+                except BaseException as e:
+                    want = e
+                if w.error is not None:
+                    ctx.fail("live: watch %r failed with %r, in the frame it evaluates to %r" % (w.expression, w.error, want), j, tag="watch-scope")
+                    continue
+                var = snap.var_lookup.get(w.result.vid)
+                if var is None or var.type != type(want).__name__ or (type(want) in (str, int) and var.value != str(want)):
+                    ctx.fail("live: watch %r reported as %s %r, in the paused frame it is %s %r" % (
+                        w.expression, var.type if var else None, var.value if var else None, type(want).__name__, want), j, tag="watch-scope")
+            if [w.expression for w in snap.watches] != watch_exprs:
+                ctx.fail("live: watches reported %r, configured %r" % ([w.expression for w in snap.watches], watch_exprs), j, tag="watch-expr")
             tp = snap.tracepoint
             if tp.id != "live-%d" % k or tp.line_no != line or tp.path != os.path.basename(path):
                 ctx.fail("live: tracepoint reported as (%r,%r,%r)" % (tp.id, tp.path, tp.line_no), j, tag="tracepoint")
